@@ -143,6 +143,9 @@ func (e *Engine) step(st *State, fr *Frame, in ssa.Instruction, onReturn func(*S
 		e.checkDeref(st, fr, addr, in)
 		e.frameCheckStore(st, fr, addr.L, in)
 		e.lockCheck(st, fr, addr.L, true, in)
+		if addr.L != nil && addr.L.Kind == LHeap {
+			st.published = true
+		}
 		e.store(st, addr.L, e.val(st, fr, x.Val))
 	case *ssa.UnOp:
 		fr.regs[x] = e.execUnOp(st, fr, x)
@@ -195,6 +198,7 @@ func (e *Engine) step(st *State, fr *Frame, in ssa.Instruction, onReturn func(*S
 	case *ssa.MakeMap:
 		fr.regs[x] = e.execMakeMap(st, fr, x)
 	case *ssa.MapUpdate:
+		st.published = true
 		e.execMapUpdate(st, fr, x)
 	case *ssa.MakeClosure:
 		var bind []Val
@@ -213,6 +217,9 @@ func (e *Engine) step(st *State, fr *Frame, in ssa.Instruction, onReturn func(*S
 	case *ssa.Next:
 		return e.execNext(st, fr, x)
 	case *ssa.Call:
+		if !callPublishesNothing(x) {
+			st.published = true
+		}
 		return e.execCall(st, fr, x, onReturn)
 	case *ssa.Defer:
 		var args []Val
@@ -233,8 +240,10 @@ func (e *Engine) step(st *State, fr *Frame, in ssa.Instruction, onReturn func(*S
 		}
 		fr.defers = append(fr.defers, d)
 	case *ssa.RunDefers:
+		st.published = true
 		return e.runDefers(st, fr, onReturn)
 	case *ssa.Go:
+		st.published = true
 		e.Assumptions["goroutine spawn in "+fr.fn.String()+" is ignored in the spawner's proof"] = true
 	case *ssa.If:
 		c := e.val(st, fr, x.Cond).(VBool).T
@@ -265,6 +274,7 @@ func (e *Engine) step(st *State, fr *Frame, in ssa.Instruction, onReturn func(*S
 		e.oblige(st, "unreachable@panic", "", e.ordinal(in), False, "explicit panic must be unreachable", in.Pos())
 		return nil, true
 	case *ssa.Send:
+		st.published = true
 		// the receiving goroutine is not modelled: a send is an opaque step, recorded in the call log
 		e.chanAssumption(fr)
 		st.calls = append(st.calls, callRec{target: "chan-send", args: []Val{e.val(st, fr, x.Chan), e.val(st, fr, x.X)}, seq: len(st.calls)})
@@ -275,6 +285,7 @@ func (e *Engine) step(st *State, fr *Frame, in ssa.Instruction, onReturn func(*S
 		fr.regs[x] = VChan{Id: id}
 		st.calls = append(st.calls, callRec{target: "makechan", res: []Val{VChan{Id: id}}, seq: len(st.calls)})
 	case *ssa.Select:
+		st.published = true
 		// any case may be the one that proceeds; received values are arbitrary
 		e.chanAssumption(fr)
 		e.chanInterference(st)
@@ -977,4 +988,20 @@ func isSignalChan(t types.Type) bool {
 	}
 	s, ok := c.Elem().Underlying().(*types.Struct)
 	return ok && s.NumFields() == 0
+}
+
+// callPublishesNothing: mutex operations and the builtins that only read cannot make an object
+// reachable for other goroutines.
+func callPublishesNothing(x *ssa.Call) bool {
+	if b, ok := x.Call.Value.(*ssa.Builtin); ok {
+		switch b.Name() {
+		case "len", "cap", "min", "max", "ssa:deferstack", "ssa:wrapnilchk":
+			return true
+		}
+		return false
+	}
+	if f := x.Call.StaticCallee(); f != nil {
+		return strings.HasPrefix(f.String(), "(*sync.RWMutex).") || strings.HasPrefix(f.String(), "(*sync.Mutex).")
+	}
+	return false
 }
